@@ -6,7 +6,7 @@ import Resynth.Lemmas.LexLemmas
 
 * `splitLines`: final newline, CR LF terminators, appending to a source that ends with a newline;
 * `planLines`: appending lines, blank lines;
-* `runBatches` against `addStmts` on the flattened batches.
+* `runBatches` against `addStmts` on the flattened batches; regrouping of batches.
 -/
 namespace Resynth
 
@@ -283,54 +283,21 @@ def eofLoc (src : Bytes) : Loc := lastEnd Loc.nil 1 (splitLines src)
 theorem runBatches_replicate_nil (env : Env) (st : PState) : ∀ n : Nat,
     runBatches env st (List.replicate n []) = .ok st
   | 0 => rfl
-  | n + 1 => by simp only [List.replicate_succ, runBatches, addStmts]; exact runBatches_replicate_nil env st n
+  | n + 1 => by
+    simp only [List.replicate_succ, runBatches, addStmtsKeep, keepResult]
+    exact runBatches_replicate_nil env st n
 
 /-- empty batches are irrelevant, whatever happens -/
-theorem runBatches_filter (env : Env) : ∀ (bs : List (List Stmt)) (st : PState),
-    runBatches env st (bs.filter (fun b => !b.isEmpty)) = runBatches env st bs
-  | [], _ => rfl
-  | b :: bs, st => by
+theorem runBatches_filter (env : Env) (bs : List (List Stmt)) (st : PState) :
+    runBatches env st (bs.filter (fun b => !b.isEmpty)) = runBatches env st bs := by
+  rw [runBatches_flatten, runBatches_flatten]
+  congr 2
+  induction bs with
+  | nil => rfl
+  | cons b bs ih =>
     cases b with
-    | nil => simp only [List.filter_cons, List.isEmpty_nil, Bool.not_true, Bool.false_eq_true, if_false,
-        runBatches, addStmts]; exact runBatches_filter env bs st
-    | cons s ss =>
-      simp only [List.filter_cons, List.isEmpty_cons, Bool.not_false, if_true, runBatches]
-      cases addStmts env st (s :: ss) with
-      | ok st' => exact runBatches_filter env bs st'
-      | err e l => rfl
-      | panic x => rfl
-
-/-- Running batch by batch against running the flattened statement list: the same statements run, the
-same one fails (if any) with the same error; the state reported on failure is the one before the failing
-BATCH, i.e. the state after some prefix of the statements that precede the failing one. -/
-theorem runBatches_flatten (env : Env) : ∀ (bs : List (List Stmt)) (st : PState),
-    match addStmts env st bs.flatten with
-    | .ok st' => runBatches env st bs = .ok st'
-    | .err e loc => ∃ pre post st1, bs.flatten = pre ++ post ∧ addStmts env st pre = .ok st1 ∧
-        runBatches env st bs = .error (finish st1 (.failure e.cls (errDetail e) loc))
-    | .panic s => ∃ pre post st1, bs.flatten = pre ++ post ∧ addStmts env st pre = .ok st1 ∧
-        runBatches env st bs = .error (finish st1 (.panic s))
-  | [], st => by simp [addStmts, runBatches]
-  | b :: bs, st => by
-    simp only [List.flatten_cons, addStmts_append, runBatches]
-    cases hb : addStmts env st b with
-    | err e l => exact ⟨[], _, st, rfl, rfl, rfl⟩
-    | panic x => exact ⟨[], _, st, rfl, rfl, rfl⟩
-    | ok st1 =>
-      simp only [Res.bind_ok_eq]
-      have ih := runBatches_flatten env bs st1
-      cases hr : addStmts env st1 bs.flatten with
-      | ok st' => rw [hr] at ih; exact ih
-      | err e l =>
-        rw [hr] at ih
-        obtain ⟨pre, post, st2, h1, h2, h3⟩ := ih
-        exact ⟨b ++ pre, post, st2, by rw [h1, List.append_assoc], by
-          rw [addStmts_append, hb, Res.bind_ok_eq, h2], h3⟩
-      | panic x =>
-        rw [hr] at ih
-        obtain ⟨pre, post, st2, h1, h2, h3⟩ := ih
-        exact ⟨b ++ pre, post, st2, by rw [h1, List.append_assoc], by
-          rw [addStmts_append, hb, Res.bind_ok_eq, h2], h3⟩
+    | nil => simpa using ih
+    | cons s ss => simp [ih]
 
 /-! ## runs: regrouping the statements -/
 
@@ -338,130 +305,82 @@ theorem execFrom_filter (env : Env) (fin : Option Outcome) (st : PState) (bs : L
     execFrom env fin st (bs.filter (fun b => !b.isEmpty)) = execFrom env fin st bs := by
   unfold execFrom; rw [runBatches_filter]
 
-/-- if no statement fails, only the sequence of statements matters -/
-theorem execFrom_flatten_ok {env : Env} {fin : Option Outcome} {st st' : PState} {bs cs : List (List Stmt)}
-    (h : bs.flatten = cs.flatten) (hok : addStmts env st bs.flatten = .ok st') :
-    execFrom env fin st bs = execFrom env fin st cs := by
-  have hb := runBatches_flatten env bs st
-  have hc := runBatches_flatten env cs st
-  rw [← h] at hc
-  rw [hok] at hb hc
-  unfold execFrom
-  rw [hb, hc]
-
-/-- the outcome (success, or which error where) never depends on the grouping -/
-theorem execFrom_flatten_outcome {env : Env} {fin : Option Outcome} {st : PState} {bs cs : List (List Stmt)}
-    (h : bs.flatten = cs.flatten) :
-    (execFrom env fin st bs).outcome = (execFrom env fin st cs).outcome := by
-  have hb := runBatches_flatten env bs st
-  have hc := runBatches_flatten env cs st
-  rw [← h] at hc
-  cases hr : addStmts env st bs.flatten with
-  | ok st' => rw [execFrom_flatten_ok h hr]
-  | err e l =>
-    rw [hr] at hb hc
-    obtain ⟨_, _, s1, _, _, h1⟩ := hb
-    obtain ⟨_, _, s2, _, _, h2⟩ := hc
-    unfold execFrom; rw [h1, h2]; rfl
-  | panic x =>
-    rw [hr] at hb hc
-    obtain ⟨_, _, s1, _, _, h1⟩ := hb
-    obtain ⟨_, _, s2, _, _, h2⟩ := hc
-    unfold execFrom; rw [h1, h2]; rfl
-
-/-- what a failing run has emitted is what the statements before the failing batch emitted: for two
-groupings one of these is a prefix of the other -/
-theorem execFrom_flatten_emitted {env : Env} {fin : Option Outcome} {st : PState} {bs cs : List (List Stmt)}
-    (h : bs.flatten = cs.flatten) :
-    (execFrom env fin st bs).emitted <+: (execFrom env fin st cs).emitted ∨
-    (execFrom env fin st cs).emitted <+: (execFrom env fin st bs).emitted := by
-  have hb := runBatches_flatten env bs st
-  have hc := runBatches_flatten env cs st
-  rw [← h] at hc
-  have key : ∀ (pre1 post1 pre2 post2 : List Stmt) (s1 s2 : PState), bs.flatten = pre1 ++ post1 →
-      bs.flatten = pre2 ++ post2 → addStmts env st pre1 = .ok s1 → addStmts env st pre2 = .ok s2 →
-      s1.emitted <+: s2.emitted ∨ s2.emitted <+: s1.emitted := by
-    intro pre1 post1 pre2 post2 s1 s2 e1 e2 a1 a2
-    have p1 : pre1 <+: bs.flatten := ⟨post1, e1.symm⟩
-    have p2 : pre2 <+: bs.flatten := ⟨post2, e2.symm⟩
-    rcases List.prefix_or_prefix_of_prefix p1 p2 with ⟨d, hd⟩ | ⟨d, hd⟩
-    · left
-      rw [← hd, addStmts_append, a1, Res.bind_ok_eq] at a2
-      exact addStmts_emitted_prefix a2
-    · right
-      rw [← hd, addStmts_append, a2, Res.bind_ok_eq] at a1
-      exact addStmts_emitted_prefix a1
-  cases hr : addStmts env st bs.flatten with
-  | ok st' => rw [execFrom_flatten_ok h hr]; exact .inl (List.prefix_refl _)
-  | err e l =>
-    rw [hr] at hb hc
-    obtain ⟨pre1, post1, s1, e1, a1, h1⟩ := hb
-    obtain ⟨pre2, post2, s2, e2, a2, h2⟩ := hc
-    unfold execFrom; rw [h1, h2]
-    exact key pre1 post1 pre2 post2 s1 s2 e1 e2 a1 a2
-  | panic x =>
-    rw [hr] at hb hc
-    obtain ⟨pre1, post1, s1, e1, a1, h1⟩ := hb
-    obtain ⟨pre2, post2, s2, e2, a2, h2⟩ := hc
-    unfold execFrom; rw [h1, h2]
-    exact key pre1 post1 pre2 post2 s1 s2 e1 e2 a1 a2
+/-- only the sequence of statements matters, not how it is cut into batches — whether or not a statement
+fails: a failing run stops in the state in which the failing statement was executed, in either
+grouping -/
+theorem execFrom_regroup {env : Env} {fin : Option Outcome} {st : PState} {bs cs : List (List Stmt)}
+    (h : bs.flatten = cs.flatten) : execFrom env fin st bs = execFrom env fin st cs := by
+  rw [execFrom_flatten env fin st bs, execFrom_flatten env fin st cs, h]
 
 /-- forget the position of a failure -/
 def Outcome.eraseLoc : Outcome → Outcome
   | .failure c d _ => .failure c d Loc.nil
   | o => o
 
+/-- two batches stop alike: in related states, for the same reason (up to the position of the error) -/
+def KeptSim (k k' : Kept) : Prop :=
+  Sem.Sim (fun _ => False) k.1 k'.1 ∧
+  match k.2, k'.2 with
+  | none, none => True
+  | some (.inl (e, _)), some (.inl (e', _)) => e = e'
+  | some (.inr x), some (.inr x') => x = x'
+  | _, _ => False
+
+/-- statement lists that agree up to source positions, run one statement at a time from related states:
+the same statement fails (if any) for the same reason, in related states -/
+theorem addStmtsKeep_sim_erase (env : Env) : ∀ (ss ss' : List Stmt),
+    ss.map Stmt.erase = ss'.map Stmt.erase → ∀ {st st' : PState}, Sem.Sim (fun _ => False) st st' →
+    KeptSim (addStmtsKeep env st ss) (addStmtsKeep env st' ss')
+  | [], [], _, _, _, h => ⟨h, trivial⟩
+  | [], _ :: _, he, _, _, _ => by simp at he
+  | _ :: _, [], he, _, _, _ => by simp at he
+  | s :: ss, s' :: ss', he, st, st', h => by
+    simp only [List.map_cons, List.cons.injEq] at he
+    have h1 := Sem.addStmts_sim_erase (skip := fun _ => False) env (ss := [s]) (ss' := [s'])
+      (by simp [he.1]) h (fun _ _ _ hy => hy.elim)
+    simp only [addStmts] at h1
+    simp only [addStmtsKeep]
+    cases ha : addStmt env st s <;> cases hb : addStmt env st' s' <;> rw [ha, hb] at h1 <;>
+      simp only [Res.bind_ok_eq, Res.bind_err_eq, Res.bind_panic_eq] at h1 <;> cases h1
+    · rename_i hab; exact addStmtsKeep_sim_erase env ss ss' he.2 hab
+    · exact ⟨h, rfl⟩
+    · exact ⟨h, rfl⟩
+
 /-- Statement lists that agree up to source positions (the same program laid out differently): the
-same outcome up to the position of the error, and when no statement fails the same output. -/
+same outcome up to the position of the error, the same output file, the same records and the same
+number of warnings — whether or not a statement fails. -/
 theorem execFrom_erase {env : Env} {fin fin' : Option Outcome} {st : PState} {bs cs : List (List Stmt)}
     (h : bs.flatten.map Stmt.erase = cs.flatten.map Stmt.erase)
     (hf : fin.map Outcome.eraseLoc = fin'.map Outcome.eraseLoc) :
     (execFrom env fin st bs).outcome.eraseLoc = (execFrom env fin' st cs).outcome.eraseLoc ∧
-    ((∃ st', addStmts env st bs.flatten = .ok st') →
-      (execFrom env fin st bs).file = (execFrom env fin' st cs).file ∧
-      (execFrom env fin st bs).emitted = (execFrom env fin' st cs).emitted ∧
-      (execFrom env fin st bs).warnings.length = (execFrom env fin' st cs).warnings.length) := by
-  have hb := runBatches_flatten env bs st
-  have hc := runBatches_flatten env cs st
-  have hsim := Sem.addStmts_sim_erase (skip := fun _ => False) env h (Sem.Sim.refl st)
-    (fun _ _ _ hy => hy.elim)
-  generalize hx : addStmts env st bs.flatten = x at hsim hb
-  generalize hy : addStmts env st cs.flatten = y at hsim hc
-  cases hsim with
-  | @ok a b hab =>
-    simp only [] at hb hc
-    have hfl : a.wr.flushBuf = b.wr.flushBuf := by rw [hab.wr]
-    have hout : (execFrom env fin st bs).outcome.eraseLoc = (execFrom env fin' st cs).outcome.eraseLoc ∧
-        (execFrom env fin st bs).file = (execFrom env fin' st cs).file ∧
-        (execFrom env fin st bs).emitted = (execFrom env fin' st cs).emitted ∧
-        (execFrom env fin st bs).warnings.length = (execFrom env fin' st cs).warnings.length := by
-      unfold execFrom
-      rw [hb, hc]
-      cases fin with
-      | some o =>
-        cases fin' with
-        | none => simp at hf
-        | some o' =>
-          simp only [Option.map_some, Option.some.injEq] at hf
-          simp only [finish, hab.wr, hab.emitted, hab.nwarn, hf, and_self]
+    (execFrom env fin st bs).file = (execFrom env fin' st cs).file ∧
+    (execFrom env fin st bs).emitted = (execFrom env fin' st cs).emitted ∧
+    (execFrom env fin st bs).warnings.length = (execFrom env fin' st cs).warnings.length := by
+  have hk := addStmtsKeep_sim_erase env _ _ h (Sem.Sim.refl st)
+  unfold execFrom
+  rw [runBatches_flatten, runBatches_flatten]
+  generalize addStmtsKeep env st bs.flatten = ka at hk ⊢
+  generalize addStmtsKeep env st cs.flatten = kb at hk ⊢
+  rcases ka with ⟨a, _ | ⟨⟨e, l⟩ | x⟩⟩ <;> rcases kb with ⟨b, _ | ⟨⟨e', l'⟩ | x'⟩⟩ <;>
+    obtain ⟨hab, hr⟩ := hk <;> (try exact hr.elim) <;> replace hab : Sem.Sim (fun _ => False) a b := hab
+  · have hfl : a.wr.flushBuf = b.wr.flushBuf := by rw [hab.wr]
+    simp only [keepResult]
+    cases fin with
+    | some o =>
+      cases fin' with
+      | none => simp at hf
+      | some o' =>
+        simp only [Option.map_some, Option.some.injEq] at hf
+        simp only [finish, hab.wr, hab.emitted, hab.nwarn, hf, and_self]
+    | none =>
+      cases fin' with
+      | some o' => simp at hf
       | none =>
-        cases fin' with
-        | some o' => simp at hf
-        | none =>
-          simp only [hfl]
-          split <;> simp only [finish, hab.emitted, hab.nwarn, and_self]
-    exact ⟨hout.1, fun _ => hout.2⟩
-  | err e l l' =>
-    obtain ⟨_, _, s1, _, _, h1⟩ := hb
-    obtain ⟨_, _, s2, _, _, h2⟩ := hc
-    refine ⟨?_, ?_⟩
-    · unfold execFrom; rw [h1, h2]; rfl
-    · rintro ⟨st', hst⟩; cases hst
-  | panic x =>
-    obtain ⟨_, _, s1, _, _, h1⟩ := hb
-    obtain ⟨_, _, s2, _, _, h2⟩ := hc
-    refine ⟨?_, ?_⟩
-    · unfold execFrom; rw [h1, h2]; rfl
-    · rintro ⟨st', hst⟩; cases hst
+        simp only [hfl]
+        split <;> simp only [finish, hab.emitted, hab.nwarn, and_self]
+  · subst hr
+    simp only [keepResult, finish, hab.wr, hab.emitted, hab.nwarn, Outcome.eraseLoc, and_self]
+  · subst hr
+    simp only [keepResult, finish, hab.wr, hab.emitted, hab.nwarn, Outcome.eraseLoc, and_self]
 
 end Resynth
